@@ -1676,3 +1676,4 @@ def _run(ctx):
     application_bound(ctx)
     fz.accept_implies_positive(ctx)
     fz.beta_divisions_guarded(ctx)
+    fz.norm_divisions_guarded(ctx)
